@@ -619,6 +619,9 @@ class _Analysis:
                     pass        # `config[param] = value` in the CLI: the record stands for the command line already, what is parsed out of the '--param=value' tokens adds nothing to it
                 else:
                     env[root.id] = env.get(root.id, EMPTY) | labels
+                alias = env.get('<alias>' + root.id)          # `self.pull2addr = pull2addr = {}` ... `pull2addr[pull] = addr`: the attribute holds what is stored through the local name
+                if alias and root is base and self.clskey is not None:
+                    self.eng.set_attr(self.clskey, alias, self._concrete(labels))
             if isinstance(base, ast.Attribute) and isinstance(base.value, ast.Name) and base.value.id == 'self' and self.clskey is not None:
                 self.eng.set_attr(self.clskey, base.attr, self._concrete(labels))
                 self.eng.set_attr_keys(self.clskey, base.attr, self._concrete(self.ev_quiet(tgt.slice, env)))
@@ -1142,6 +1145,8 @@ class _Analysis:
         elif isinstance(f, ast.IfExp) and all(isinstance(a, ast.Attribute) and a.attr in LOG_LEVELS and U(a.value).endswith(('logger', 'logging', 'log')) for a in (f.body, f.orelse)):
             kind = 'log'      # (logger.warning if cond else logger.error)(message)
         elif isinstance(f, ast.Name) and f.id == 'print':
+            kind = 'log'
+        elif fname == 'set_fixed_metrics':        # the values become fields of every record of the metrics log (and attributes of the telemetry instruments)
             kind = 'log'
         elif isinstance(f, ast.Name) and f.id == 'once' and node.args and isinstance(node.args[0], ast.Attribute) and node.args[0].attr in LOG_LEVELS:
             kind = 'log'
